@@ -498,6 +498,22 @@ def normalize_ipv4_address(address):
                 for index, part in enumerate(address.split('.'))
             )
         ).compressed
+    elif num_decimals in (1, 2):
+        # The forms "a.b" (8 + 24 bits) and "a.b.c" (8 + 8 + 16 bits) of
+        # inet_aton(): 127.1 is 127.0.0.1.
+        parts = [parse_ipv4_int(part) for part in address.split('.')]
+        last_limit = 1 << (8 * (4 - num_decimals))
+
+        if any(not 0 <= part <= 255 for part in parts[:-1]) or \
+                not 0 <= parts[-1] < last_limit:
+            raise ValueError('Not an IPv4 address')
+
+        return ipaddress.IPv4Address(
+            parts[-1] + sum(
+                part << (24 - index * 8)
+                for index, part in enumerate(parts[:-1])
+            )
+        ).compressed
     else:
         raise ValueError('Not an IPv4 address')
 
